@@ -17,7 +17,7 @@ CHECKS = {
              "contains_version() returns exactly the interval-set denotation written from the property text on every well-formed range, never "
              "raises there, and depends only on the comparison outcomes. The model is tied to /repo by a correspondence check that is exhaustive "
              "over all comparator patterns up to a length bound x all probe positions on several schemes, and the comparator semantics table is "
-             "regenerated from the live COMPARATORS on every run.",
+             "regenerated from the live COMPARATORS on every run. The same statement is also evaluated on one- and two-constraint ranges over dense families of versions of every class (same base: every number zero-padded, every suffix of the scheme's dictionary, component ladders, case variants, empty trailing parts, single edits, source-mined words; harness/dense.py), where only ==, < and > of the version class say what the answer must be.",
         ref="6 (C04), Appendix A/E.1", technique="Coq proof (induction over the constraint list) + exhaustive small-scope model/implementation correspondence",
         note="Assumes the scheme's comparison is a total preorder and its six operators agree with it (C01/C02 of the scheme)."),
     "C07": dict(
@@ -26,7 +26,7 @@ CHECKS = {
              "sentence (a Prop-level spec with Permutation), returns ValueError otherwise, and every accepted list, as sorted by validate, is answered by the "
              "containment scan without error (with C04's denotation). Correspondence: exhaustive over all 7^n sequences x all position assignments for n<=3 and all "
              "comparator sequences up to the tier bound on several schemes, including differently spelled equal versions, with membership probed on the very list "
-             "object validate() sorted.",
+             "object validate() sorted. The same statement is also evaluated on one- and two-constraint ranges over dense families of versions of every class (same base: every number zero-padded, every suffix of the scheme's dictionary, component ladders, case variants, empty trailing parts, single edits, source-mined words; harness/dense.py), where only ==, < and > of the version class say what the answer must be.",
         ref="6 (C07)", technique="Coq proof (sorting uniqueness + list induction) + exhaustive small-scope correspondence",
         note="Assumes C01/C02/C12 of the scheme (total preorder, consistent operators, equal versions hash alike); set() is modelled as de-duplication by ==."),
     "C08": dict(
@@ -35,14 +35,14 @@ CHECKS = {
              "of its input with the same membership (the property's nearest-bound meaning, written independently and proved equal to C04's denotation on well-formed "
              "ranges), which validation accepts and which is a fixed point. Proved via an invariant of the walk (processed prefix irreducible, meaning preserved by each "
              "of the two rules, fuel bound 2n). The model mirrors the code after the fix: commit in /repo. Correspondence exhaustive over all comparator patterns "
-             "up to the tier bound, with all four conclusions also evaluated directly on the implementation.",
+             "up to the tier bound, with all four conclusions also evaluated directly on the implementation. The same statement is also evaluated on one- and two-constraint ranges over dense families of versions of every class (same base: every number zero-padded, every suffix of the scheme's dictionary, component ladders, case variants, empty trailing parts, single edits, source-mined words; harness/dense.py), where only ==, < and > of the version class say what the answer must be.",
         ref="6 (C08), Appendix E.2", technique="Coq proof (loop invariant + rule lemmas over a state-machine semantics) + exhaustive small-scope correspondence",
         note="Assumes C01/C02/C12 of the scheme. The original walk violated the property (DESIGN section 9 item 9); it was repaired by a fix: commit and the model follows the repaired code."),
     "C09": dict(
         text="Theorems for every version type with a total preorder: inverting a single constraint flips membership (case analysis over the inversion table "
              "transcribed from /repo by executing VersionConstraint.invert on every comparator); '*' has no inverse; for every non-empty well-formed non-vacuous "
              "range of any length the model of VersionRange.invert() returns a well-formed range whose denotation and containment answer are the complement; "
-             "inverting twice returns the original list (no side condition). Correspondence exhaustive over comparator patterns up to the tier bound x all probes.",
+             "inverting twice returns the original list (no side condition). Correspondence exhaustive over comparator patterns up to the tier bound x all probes. The same statement is also evaluated on one- and two-constraint ranges over dense families of versions of every class (same base: every number zero-padded, every suffix of the scheme's dictionary, component ladders, case variants, empty trailing parts, single edits, source-mined words; harness/dense.py), where only ==, < and > of the version class say what the answer must be.",
         ref="6 (C09)", technique="Coq proof (characterisation of the interval denotation by cut positions) + exhaustive small-scope correspondence",
         note="Assumes C01/C02 of the scheme. The empty constraint list is not a vers range and is excluded (DESIGN section 9)."),
     "C10": dict(
@@ -52,7 +52,7 @@ CHECKS = {
              "known version exactly when the original did and never raises; it is empty when no known version is a member; it depends on the range only through membership of "
              "the known versions; two known lists with the same elements give ranges that contain the same versions; from_versions contains exactly the versions equal to a "
              "listed one. The model is tied to /repo by the correspondence of normalize() and all clauses are also evaluated on the implementation over every well-formed "
-             "pattern up to the tier bound x every subset of the probe grid as universe (shuffled, duplicated, respelled).",
+             "pattern up to the tier bound x every subset of the probe grid as universe (shuffled, duplicated, respelled). The same statement is also evaluated on one- and two-constraint ranges over dense families of versions of every class (same base: every number zero-padded, every suffix of the scheme's dictionary, component ladders, case variants, empty trailing parts, single edits, source-mined words; harness/dense.py), where only ==, < and > of the version class say what the answer must be.",
         ref="6 (C10)", technique="Coq proof (group structure of the runs over a sorted list, reduced to the interval-conversion theorems of C06 and to C04/C07) + exhaustive small-scope evaluation and model correspondence",
         note="Order/duplication independence is proved as equality of membership for all versions (the literal constraint texts may differ in the spelling of equal versions). Assumes C01/C02/C12 of the scheme."),
     "C14": dict(
@@ -69,7 +69,7 @@ CHECKS["C17"] = dict(
          "rearrangement of the constraints = print+parse / permute+rebuild, simplify, validate, invert twice, parse with simplify/validate flags; each the code-shaped "
          "model of the public operation) is enabled and never raises; after any finite history the containment answer for every version equals the initial one; and "
          "once a simplification has happened the constraint list never changes again. By induction over the history from the one-step theorems of C04/C07/C08/C09. "
-         "Correspondence: random walks over the operation alphabet on the real API with the full membership vector and canonical text observed after every step.",
+         "Correspondence: random walks over the operation alphabet on the real API with the full membership vector and canonical text observed after every step. The same statement is also evaluated on one- and two-constraint ranges over dense families of versions of every class (same base: every number zero-padded, every suffix of the scheme's dictionary, component ladders, case variants, empty trailing parts, single edits, source-mined words; harness/dense.py), where only ==, < and > of the version class say what the answer must be.",
     ref="6 (C17)", technique="Coq proof (induction over histories from one-step lemmas) + random-walk correspondence against the model's state",
     note="Assumes C01/C02/C12 of the scheme and that print+parse is a rebuild (C05/C11 of the scheme, text level). '*' has no inverse and is treated separately.")
 
@@ -79,7 +79,7 @@ CHECKS["C05"] = dict(
          "both taken from the regenerated tables); a non-empty star-free range with pairwise inequivalent versions whose texts are delimiter-free and re-construct to themselves "
          "prints to a text that parses back to the very same constraint list (hence equal range, identical second print); '*' round-trips; the printed form is the version-ordered "
          "list with '=' implicit; and (finite, over the regenerated registry) every range class that prints a scheme is the registry's entry for that scheme and vice versa. "
-         "Correspondence: print/parse/print, to_dict and registry on every registered scheme and range class, and model vs implementation on a generic scheme registered at run time.",
+         "Correspondence: print/parse/print, to_dict and registry on every registered scheme and range class, and model vs implementation on a generic scheme registered at run time. The same statement is also evaluated on one- and two-constraint ranges over dense families of versions of every class (same base: every number zero-padded, every suffix of the scheme's dictionary, component ladders, case variants, empty trailing parts, single edits, source-mined words; harness/dense.py), where only ==, < and > of the version class say what the answer must be.",
     ref="6 (C05)", technique="Coq proof (string-level lemmas over a model of the parser/printer; finite registry facts by computation) + per-scheme round-trip evaluation and model correspondence",
     note="Assumes C11 of the scheme (printed version text re-constructs to an equal version) and C01/C02. Ranges repeating a version and to_dict are covered by the correspondence only. CPython str methods are modelled (Py/PyStr.v) and conformance-tested on every run.")
 CHECKS["C13"] = dict(
@@ -88,7 +88,7 @@ CHECKS["C13"] = dict(
          "from_string factors through remove_spaces, so whitespace inserted anywhere is insignificant; an explicit '=' splits like none; the letter case of 'vers:' and of the "
          "scheme is irrelevant. Stray pipes are covered by the correspondence. Checked on the implementation: shuffled rebuilds and decorated variants on every registered scheme, "
          "pools of near-equal versions given in two orders, the model of from_string vs the implementation on a generic scheme, CPython conformance of the string primitives, and "
-         "the same workload run in fresh interpreters under several PYTHONHASHSEED values.",
+         "the same workload run in fresh interpreters under several PYTHONHASHSEED values. The same statement is also evaluated on one- and two-constraint ranges over dense families of versions of every class (same base: every number zero-padded, every suffix of the scheme's dictionary, component ladders, case variants, empty trailing parts, single edits, source-mined words; harness/dense.py), where only ==, < and > of the version class say what the answer must be.",
     ref="6 (C13)", technique="Coq proof (sorted-permutation uniqueness; parser factorisation lemmas) + decorated-variant evaluation, model correspondence and multi-seed subprocess runs",
     note="Assumes C01/C02/C12 of the scheme. The hash seed is a process-level configuration: proved for the model (set = arbitrary permutation), exercised on CPython by subprocess runs.")
 
@@ -124,11 +124,11 @@ CHECKS["C12"] = dict(
 CHECKS["C11"] = dict(
     text="Per modelled scheme the constructor is the code's `normalize; is_valid; build_value`, with the validity check and the builder as two separate code-shaped models. Proved: "
          "the validity check says 'valid' exactly when construction succeeds and a failed construction is the invalid-version error (all 17 classes); "
-         "the print/re-construct round trip for generic, ebuild, alpine, gem, alpm, the semver family and nuget (the last two through a lemma that str(n) is a digit string of value n). For every version class the implementation is checked on the documented-"
+         "the print/re-construct round trip for generic, ebuild, alpine, gem, alpm, the semver family, nuget, deb and rpm (the structured printers through a lemma that str(n) is a digit string of value n; the rpm theorem has the complement of the listed finding as its hypothesis and the finding as a refuting example). For every version class the implementation is checked on the documented-"
          "grammar, near-pair, exhaustive small-alphabet, malformed and non-ASCII streams: validity vs constructor, error type, acceptance of grammar strings, round trip, whitespace "
          "and leading-v invariance; modelled classes are compared with their model string by string.",
     ref="6 (C11)", technique="Coq proof (two-path constructor models) for the modelled schemes + per-class stream evaluation and model correspondence",
-    note="PARTIAL in breadth: no round-trip theorem for deb and rpm (each has a listed finding), legacy openssl/openssl, pypi (third-party printer), maven and conan (they keep the text); those round trips are checked on the implementation and against the models. Known findings: deb colon inside upstream; rpm 0:v1.0. Non-ASCII input is outside the models.")
+    note="PARTIAL in breadth: no round-trip theorem for legacy openssl/openssl, pypi (third-party printer), maven and conan (they keep the text); those round trips are checked on the implementation and against the models. Known findings: deb colon inside upstream; rpm 0:v1.0. Non-ASCII input is outside the models.")
 
 CHECKS["C18"] = dict(
     text="Theorems over the code-shaped model of semantic_version's next_major/next_minor/next_patch and of the SemVer precedence extended with the build tie-break (the order the "
@@ -147,7 +147,7 @@ CHECKS["C15"] = dict(
          "list/string input, '||', brackets, detached comparators) must equal the range of the stated pairs and the range parsed from the equivalent vers text; the models of all "
          "converters are compared with the implementation on a generic scheme, malformed expressions included.",
     ref="6 (C15)", technique="Coq proof (finite table facts by computation, lifted to all version texts by a splitter lemma) + generated-expression evaluation and model correspondence",
-    note="Whole-expression theorems exist for GitHub and for Snyk items of comma-separated clauses; the Snyk bracket form and GitLab expressions are modelled and checked by correspondence and direct evaluation (the clause-level splitter theorem covers their tables). Assumes C11 of the scheme.")
+    note="Whole-expression theorems exist for GitHub, for Snyk items of comma-separated clauses and for GitLab expressions of glued clauses without '||' (gitlab_range_rendered); the Snyk bracket form, GitLab detached comparators and '||' are modelled and checked by correspondence and direct evaluation (the clause-level splitter theorem covers their tables). Assumes C11 of the scheme.")
 
 CHECKS["C16"] = dict(
     text="Theorems: the model of the vers-text parser (remove_spaces, split, constraint parsing, validation, sort, VersionRange construction) is total and every error value it "
@@ -177,12 +177,16 @@ CHECKS["C06"] = dict(
          "one exact version or one interval with inclusive, exclusive or open ends and exclusions inside), the constraints every from_native emits (to_constraints) denote, in C04's interval-set "
          "meaning, exactly the versions some alternative accepts (native_conversion_exact: one-alternative lemma, a union lemma for constraint lists placed one after the other, induction over the "
          "alternatives). Shorthand theorems on the semver model for all release versions: npm caret (left-most non-zero element), tilde and M.m.x (same minor), M.x (same major), nginx 'version+' "
-         "(stable branch bounded by the next minor, mainline unbounded), hyphen ranges. On the implementation, for maven, nuget, npm, conan, gem, pypi, deb, rpm, nginx and openssl: random fragment "
+         "(stable branch bounded by the next minor, mainline unbounded), hyphen ranges. Parsers included, for four notations: code-shaped models of maven.Restriction / maven.VersionRange / "
+         "MavenVersionRange.from_native (maven and nuget bracket notation), of the deb and rpm relationship strings (split_req on the class tables regenerated from /repo), of the nginx notation and of the "
+         "openssl version list, each with the theorem that the TEXT rendered from a well-formed expression is read as exactly the constraints of its alternatives (already sorted and well-formed for the "
+         "bracket notation), so that with native_conversion_exact the parsed text contains exactly the versions the expression matches. On the implementation, for maven, nuget, npm, conan, gem, pypi, deb, rpm, nginx and openssl: random fragment "
          "expressions over a ladder of 64 release versions rendered with spelling variants; the result must validate, every ladder version is probed against the extracted native rule, and the emitted "
-         "constraints are compared with the conversion model of the theorem; shorthands (^, ~, x, ~>, +) are probed around every bound against the extracted rules.",
+         "constraints are compared with the conversion model of the theorem; shorthands (^, ~, x, ~>, +) are probed around every bound against the extracted rules (corner shapes with a zero in each position first).",
     ref="6 (C06)", technique="Coq proof (interval-set union lemma + induction over alternatives; arithmetic on release triples by lia) + conversion-model correspondence and exhaustive ladder probing",
-    note="Also proved: the converted range is well-formed (native_conversion_wf) and the containment code on it answers the native rule without raising (with C04). PARTIAL: the parsers of the "
-         "native notations are not modelled (the emitted constraints are compared with the conversion model instead); conan and gem shorthands are evaluated against the rules on numeric triples without a theorem on their own version models. Assumes C01/C02 of the scheme. "
+    note="Also proved: the converted range is well-formed (native_conversion_wf) and the containment code on it answers the native rule without raising (with C04). The four parser models are compared with "
+         "from_native / from_natives on well-formed, decorated and malformed texts (constraints as a multiset, or the error kind). PARTIAL: the parsers of npm, conan, gem and pypi (the last through the "
+         "third-party packaging) are not modelled (the emitted constraints are compared with the conversion model instead); conan and gem shorthands are evaluated against the rules on numeric triples without a theorem on their own version models. Assumes C01/C02 of the scheme. "
          "Known findings: deprecated Debian '<' '>' read as strict; bare Maven/NuGet version gives '=None'; alternatives meeting at one version give an ill-formed range.")
 
 PENDING = {}
